@@ -85,6 +85,16 @@ def findings_for(prop):
 
 def run(prop, tier, seed, only=None):
     c = common.Check(prop, tier, seed, "model_checking")
+    cov = collect(prop, tier, seed, c, only)
+    c.coverage = cov
+    if cov.pop("model_mismatch", None) and not c.violations:
+        c.finish()
+        return 2
+    return c.finish()
+
+
+def collect(prop, tier, seed, c, only=None):
+    """runs the pipeline for `prop`, registers violations / known findings on the Check `c`, returns the coverage dict"""
     confs = [x for x in configs_for(prop) if only is None or x["name"] in only]
     if not confs:
         raise common.ToolError("no model configuration serves %s" % prop)
@@ -149,7 +159,7 @@ def run(prop, tier, seed, only=None):
                     {"kind": "cfdp-script", "property": prop, "tag": x["tag"], "line": x["line"], "script": script, "trace": trace})
     for d in drifts[:10]:
         print("DRIFT property=%s config=%s script=%s step=%d action=%s parts=%s" % (prop, d["config"], d["id"], d["line"], d["action"], ",".join(d["parts"])))
-    c.coverage = {
+    cov = {
         "states": states,
         "transitions": trans,
         "traces_validated_against_impl": nscripts,
@@ -170,9 +180,8 @@ def run(prop, tier, seed, only=None):
     ]
     if model_unknown and not viols:
         common.log("MODEL-MISMATCH: the model violates a property in %s but no real execution does" % model_unknown)
-        c.finish()
-        return 2
-    return c.finish()
+        cov["model_mismatch"] = model_unknown
+    return cov
 
 
 def fmt_step(s):
